@@ -43,6 +43,15 @@ MANUAL = [
      [{'a': 'call', 'x': 'c', 'c': {'op': 'hdr', 'sid': 1, 'h': 'req_post_cl3', 'es': False, 'pr': []}},
       {'a': 'call', 'x': 'c', 'c': {'op': 'data', 'sid': 1, 'n': 5, 'tag': 'A', 'es': True, 'pad': -1}},
       {'a': 'dlv', 'x': 's', 'k': 2}]),
+    ('sent_content_length_unparsed', ['C01'],
+     'send_headers emits a content-length field whose value is not a number (outbound validation does not look at it); the '
+     'receiving h2 endpoint refuses the block with ProtocolError ("Invalid content-length header") and closes the connection '
+     '(a successful send that the peer does not accept); found by trace validation under another seed: '
+     'P_C01_DeliveredSendsAccepted on recorded trace pair/mix/4000024', PAIR,
+     [{'a': 'call', 'x': 'c', 'c': {'op': 'hdr', 'sid': 1, 'h': 'req_get', 'es': True, 'pr': []}},
+      {'a': 'dlv', 'x': 's', 'k': 1},
+      {'a': 'call', 'x': 's', 'c': {'op': 'hdr', 'sid': 1, 'h': 'resp_cl_bad', 'es': False, 'pr': []}},
+      {'a': 'dlv', 'x': 'c', 'k': 1}]),
     ('sent_header_list_unchecked', ['C01'],
      'send_headers emits a header list larger than the MAX_HEADER_LIST_SIZE the peer announced; the receiving h2 endpoint refuses '
      'it with DenialOfServiceError (ENHANCE_YOUR_CALM) and closes the connection (a successful send that the peer does not '
